@@ -81,7 +81,9 @@ def warm_start(
             logger.error("Warm start: No value for variable %s", var)
             raise SystemExit(1)
 
-        state.variables[var] = values
+        # Item assignment casts to the declared type of the variable
+        # (alive and active come back from file as small integers)
+        state[var] = values
 
     # # Instance variables with default
     # if "alive" not in wvars:
